@@ -248,7 +248,9 @@ fn find_free_twin(ft: FatType) {
             assert!(ent(ft, &old, j as usize) != 0);
         }
     }
-    assert!(dev.data == old);
+    let bi: usize = kani::any();
+    kani::assume(bi < T32);
+    assert!(dev.data[bi] == old[bi]);
     kani::cover!(r.is_ok());
     kani::cover!(r.is_err());
 }
@@ -296,7 +298,9 @@ fn count_free_twin(ft: FatType) {
         k += 1;
     }
     assert!(r.unwrap() == want);
-    assert!(dev.data == old);
+    let bi: usize = kani::any();
+    kani::assume(bi < T32);
+    assert!(dev.data[bi] == old[bi]);
     kani::cover!(want == 3 && total == 14);
 }
 
@@ -334,6 +338,10 @@ fn alloc_twin(ft: FatType) {
     let old = dev.data;
     let total: u32 = (AENT - 2) as u32;
     let hint: Option<u32> = if kani::any() { Some(kani::any()) } else { None };
+    if let Some(h) = hint {
+        // FsInfoSector never holds 0 or 1 (deserialize maps them to None; alloc stores c+1 >= 3): fsinfo_parse, alloc_cluster_counts
+        kani::assume(h >= 2);
+    }
     let prev: Option<u32> = if kani::any() { Some(kani::any()) } else { None };
     if let Some(p) = prev {
         kani::assume(p >= 2 && (p as usize) < AENT);
@@ -375,7 +383,9 @@ fn alloc_twin(ft: FatType) {
             let j: usize = kani::any();
             kani::assume(j >= 2 && j < AENT);
             assert!(ent(ft, &old, j) != 0);
-            assert!(new == old);
+            let bi: usize = kani::any();
+            kani::assume(bi < T32);
+            assert!(new[bi] == old[bi]);
         }
     }
     kani::cover!(matches!(&r, Ok(c) if Some(*c + 1) == hint));
@@ -384,7 +394,7 @@ fn alloc_twin(ft: FatType) {
 }
 
 // @obl props=C03,C05,C10,C20 tier=quick fns=alloc_cluster,find_free_cluster,write_fat,Fat12::find_free,Fat12::set
-// @bound bounded: 10-entry table (8 clusters), all contents, every hint: Option<u32> and prev; unbounded: Verus unit table_alloc
+// @bound bounded: 10-entry table (8 clusters), all contents, every hint >= 2 (at, before, past the last cluster, u32::MAX) or None, every prev; unbounded: Verus unit table_alloc
 // @desc FAT12 alloc_cluster: Ok(c) => 2 <= c < total+2 (never a padding entry, never entry 0/1), c was free, c now end-of-chain, prev now points to c, EVERY other entry unchanged, the scan started at the hint and wrapped around to 2; Err(NotEnoughSpace) => no free entry anywhere and the table is unchanged
 #[kani::proof]
 #[kani::unwind(12)]
@@ -412,21 +422,18 @@ fn fat32_alloc_twin() {
 
 // ---- storage faults (C09): every device call may fail with a symbolic tag ----
 
-// @obl props=C05,C09 tier=quick fns=alloc_cluster,find_free_cluster
-// @bound bounded: 6 clusters (end_cluster = 8); every device content, every hint, a fault possible at every device call
-// @desc any FAT type: if any device call issued by alloc_cluster fails, alloc_cluster returns Err(Io(e)) carrying the FIRST failing call's error - in particular never NotEnoughSpace and never Ok after a swallowed error; and it terminates within the call budget
-#[kani::proof]
-#[kani::unwind(10)]
-fn alloc_cluster_faults() {
-    let ft = any_ft();
-    let mut dev = NdDev::faulty();
-    dev.budget = 60;
+fn alloc_fault_case(ft: FatType, k: usize) {
+    let mut dev = NdDev::fault_at(k);
+    dev.budget = 40;
     let hint: Option<u32> = if kani::any() { Some(kani::any()) } else { None };
+    if let Some(h) = hint {
+        kani::assume(h >= 2);
+    }
     let prev: Option<u32> = if kani::any() { Some(kani::any()) } else { None };
     if let Some(p) = prev {
-        kani::assume(p >= 2 && p < 8);
+        kani::assume(p >= 2 && p < 6);
     }
-    let r = alloc_cluster::<NdDev, DevErr>(&mut dev, ft, prev, hint, 6);
+    let r = alloc_cluster::<NdDev, DevErr>(&mut dev, ft, prev, hint, 4);
     if dev.fault_fired {
         match r {
             Err(Error::Io(e)) => assert!(e.tag == dev.first_tag),
@@ -436,32 +443,52 @@ fn alloc_cluster_faults() {
         assert!(matches!(r, Ok(_) | Err(Error::NotEnoughSpace)));
     }
     kani::cover!(dev.fault_fired);
-    kani::cover!(!dev.fault_fired && r.is_ok());
+    kani::cover!(!dev.fault_fired);
+}
+
+// @obl props=C05,C09 tier=quick fns=alloc_cluster,find_free_cluster
+// @bound bounded: 4 clusters (end_cluster = 6); every device content, every hint; exhaustive single-fault enumeration over the first 32 device calls (an allocation on this table issues fewer)
+// @desc FAT12: if the k-th device call issued by alloc_cluster fails (every k), alloc_cluster returns Err(Io(e)) carrying that call's error - in particular never NotEnoughSpace and never Ok after a swallowed error; terminates within the call budget
+#[kani::proof]
+#[kani::unwind(8)]
+fn alloc_cluster_faults_fat12() {
+    crate::for_each_fault_index!(|k| alloc_fault_case(FatType::Fat12, k));
+}
+
+// @obl props=C05,C09 tier=quick fns=alloc_cluster,find_free_cluster
+// @bound bounded: 4 clusters; exhaustive single-fault enumeration over the first 32 device calls
+// @desc FAT16: contract of alloc_cluster_faults_fat12
+#[kani::proof]
+#[kani::unwind(8)]
+fn alloc_cluster_faults_fat16() {
+    crate::for_each_fault_index!(|k| alloc_fault_case(FatType::Fat16, k));
+}
+
+// @obl props=C05,C09 tier=quick fns=alloc_cluster,find_free_cluster
+// @bound bounded: 4 clusters; exhaustive single-fault enumeration over the first 32 device calls
+// @desc FAT32: contract of alloc_cluster_faults_fat12
+#[kani::proof]
+#[kani::unwind(8)]
+fn alloc_cluster_faults_fat32() {
+    crate::for_each_fault_index!(|k| alloc_fault_case(FatType::Fat32, k));
 }
 
 fn iter_on<'a>(dev: &'a mut NdDev, ft: FatType, c: u32) -> ClusterIterator<&'a mut NdDev, DevErr, NdDev> {
     ClusterIterator::new(dev, ft, c)
 }
 
-// @obl props=C03,C09 tier=quick fns=ClusterIterator::free,ClusterIterator::truncate,ClusterIterator::next
-// @bound bounded: the device reveals chains of at most ~6 clusters (content symbolic until the 7th table read, then end-of-chain); call budget 80
-// @desc any FAT type, a fault possible at every device call: ClusterIterator::free and ::truncate TERMINATE (device-call budget) and, if a device call failed, return Err(Io(e)) with the first failing call's error - a read error while walking the chain must not be dropped
-#[kani::proof]
-#[kani::unwind(45)]
-fn chain_free_faults() {
-    let ft = any_ft();
-    let mut dev = NdDev::faulty();
-    dev.budget = 80;
-    dev.eoc_after = 7;
+fn chain_fault_case(ft: FatType, truncate: bool, k: usize) {
+    let mut dev = NdDev::fault_at(k);
+    dev.budget = 30;
+    dev.eoc_after = 3;
     let start: u32 = kani::any();
     kani::assume(start >= 2 && start < 100);
-    let which: bool = kani::any();
     let r = {
         let mut it = iter_on(&mut dev, ft, start);
-        if which {
-            it.free()
-        } else {
+        if truncate {
             it.truncate()
+        } else {
+            it.free()
         }
     };
     if dev.fault_fired {
@@ -472,8 +499,44 @@ fn chain_free_faults() {
     } else {
         assert!(r.is_ok());
     }
-    kani::cover!(dev.fault_fired && which);
-    kani::cover!(!dev.fault_fired && matches!(r, Ok(n) if n >= 2));
+    kani::cover!(dev.fault_fired);
+    kani::cover!(!dev.fault_fired);
+}
+
+// @obl props=C03,C09 tier=quick fns=ClusterIterator::free,ClusterIterator::next
+// @bound bounded: the device reveals chains of at most 3 clusters (content symbolic, the 3rd table read returns end-of-chain); call budget 30; exhaustive single-fault enumeration over the first 32 device calls
+// @desc FAT16, the k-th device call fails (every k): ClusterIterator::free TERMINATES (device-call budget) and returns Err(Io(e)) with that call's error - a read error while walking the chain is not dropped and does not make the loop spin
+#[kani::proof]
+#[kani::unwind(20)]
+fn chain_free_faults_fat16() {
+    crate::for_each_fault_index!(|k| chain_fault_case(FatType::Fat16, false, k));
+}
+
+// @obl props=C03,C09 tier=quick fns=ClusterIterator::truncate,ClusterIterator::free,ClusterIterator::next
+// @bound bounded: chains of at most 3 clusters; call budget 30; exhaustive single-fault enumeration over the first 32 device calls
+// @desc FAT16: contract of chain_free_faults_fat16 for ClusterIterator::truncate
+#[kani::proof]
+#[kani::unwind(20)]
+fn chain_truncate_faults_fat16() {
+    crate::for_each_fault_index!(|k| chain_fault_case(FatType::Fat16, true, k));
+}
+
+// @obl props=C03,C09 tier=quick fns=ClusterIterator::free,ClusterIterator::next
+// @bound bounded: chains of at most 2 clusters; call budget 30; exhaustive single-fault enumeration over the first 32 device calls
+// @desc FAT32: contract of chain_free_faults_fat16
+#[kani::proof]
+#[kani::unwind(20)]
+fn chain_free_faults_fat32() {
+    crate::for_each_fault_index!(|k| chain_fault_case(FatType::Fat32, false, k));
+}
+
+// @obl props=C03,C09 tier=quick fns=ClusterIterator::free,ClusterIterator::next
+// @bound bounded: chains of at most 2 clusters; call budget 30; exhaustive single-fault enumeration over the first 32 device calls
+// @desc FAT12: contract of chain_free_faults_fat16
+#[kani::proof]
+#[kani::unwind(20)]
+fn chain_free_faults_fat12() {
+    crate::for_each_fault_index!(|k| chain_fault_case(FatType::Fat12, false, k));
 }
 
 // @obl props=C03,C05,C08 tier=quick fns=ClusterIterator::free,ClusterIterator::next,get_next_cluster
